@@ -32,6 +32,7 @@ type delayRule struct {
 // A gate is re-armable: every arrival parks on its own ticket; the scheduler takes one
 // arrival at a time (gateStep) and releases it.
 type ticket struct {
+	point   string
 	kv      map[string]interface{}
 	release chan struct{}
 }
@@ -94,7 +95,7 @@ func hookFn(point string, kv ...any) {
 		time.Sleep(d)
 	}
 	if g != nil {
-		t := &ticket{kv: m, release: make(chan struct{})}
+		t := &ticket{point: point, kv: m, release: make(chan struct{})}
 		select {
 		case <-g.closed:
 		case g.arrivals <- t:
